@@ -210,6 +210,11 @@ class RefServer:
                 if len(lay) >= 8:
                     body += b'\x00'
                 self.send_packet(rp.packet_id('position_look_cb', v), body)
+            elif k == 'play_compress':   # the play-state Set Compression of protocol <= 47 (id 0x46): sent in the
+                # old framing, every later frame in the new one
+                self.send_packet(0x46, rc.varint(step[1]))
+                self.compress_out = step[1]
+                self.compress_in = step[1]
             elif k == 'raw':          # arbitrary frame: (id, payload bytes)
                 self.send_packet(step[1], step[2])
             elif k == 'play_disconnect':
